@@ -44,7 +44,9 @@ func runTypeCheck(eng *Engine, name string) []*Obligation {
 	case strings.HasPrefix(name, "assumed:"):
 		return assumedContractObligations(eng, strings.TrimPrefix(name, "assumed:"))
 	case strings.HasPrefix(name, "fieldaccess:"):
-		return fieldAccessObligations(eng, strings.TrimPrefix(name, "fieldaccess:"))
+		return fieldAccessObligations(eng, strings.TrimPrefix(name, "fieldaccess:"), false)
+	case strings.HasPrefix(name, "fieldwrites:"):
+		return fieldAccessObligations(eng, strings.TrimPrefix(name, "fieldwrites:"), true)
 	case strings.HasPrefix(name, "configkeys:"):
 		return configKeyObligations(eng, strings.TrimPrefix(name, "configkeys:"))
 	case strings.HasPrefix(name, "implementors:"):
@@ -748,7 +750,9 @@ func implementorObligations(eng *Engine, spec string) []*Obligation {
 // fieldAccessObligations: "pkg.Type.field=fn1,fn2[@props]" — every access (address or value) of the field in
 // non-test sso code lies in one of the listed functions. With Type.field = OAuthProxy.handler this says the
 // upstream handler is reachable only through Proxy (which authenticates first or scrubs the identity headers).
-func fieldAccessObligations(eng *Engine, spec string) []*Obligation {
+// With writesOnly ("fieldwrites:") only stores through the field's address count: the field is assigned in the
+// listed functions and nowhere else (composite literals of the struct type assign through a FieldAddr too).
+func fieldAccessObligations(eng *Engine, spec string, writesOnly bool) []*Obligation {
 	var props []string
 	if j := strings.Index(spec, "@"); j >= 0 {
 		props = strings.Split(spec[j+1:], ",")
@@ -790,8 +794,16 @@ func fieldAccessObligations(eng *Engine, spec string) []*Obligation {
 				switch t := in.(type) {
 				case *ssa.FieldAddr:
 					hit = match(t.X.Type(), t.Field)
+					if hit && writesOnly {
+						hit = false
+						for _, r := range *t.Referrers() {
+							if st, ok := r.(*ssa.Store); ok && st.Addr == t {
+								hit = true
+							}
+						}
+					}
 				case *ssa.Field:
-					hit = match(t.X.Type(), t.Field)
+					hit = !writesOnly && match(t.X.Type(), t.Field)
 				}
 				if !hit {
 					continue
@@ -804,9 +816,13 @@ func fieldAccessObligations(eng *Engine, spec string) []*Obligation {
 		}
 	}
 	sort.Strings(bad)
+	kind, what := "fieldaccess", "access"
+	if writesOnly {
+		kind, what = "fieldwrites", "assignment"
+	}
 	return []*Obligation{
-		mkOb("fieldaccess["+target+"]", "fieldaccess", "every access of "+target+" in the module is in: "+spec[j+1:], len(bad) == 0, "other accesses in: "+strings.Join(uniq(bad), ", "), props),
-		mkOb("fieldaccess["+target+"]/found", "fieldaccess", "the field "+target+" is accessed somewhere (vacuity guard)", n > 0, fmt.Sprintf("%d accesses", n), props),
+		mkOb(kind+"["+target+"]", kind, "every "+what+" of "+target+" in the module is in: "+spec[j+1:], len(bad) == 0, "other "+what+"s in: "+strings.Join(uniq(bad), ", "), props),
+		mkOb(kind+"["+target+"]/found", kind, "the field "+target+" has such an "+what+" somewhere (vacuity guard)", n > 0, fmt.Sprintf("%d sites", n), props),
 	}
 }
 
